@@ -235,7 +235,8 @@ func unifyMapKinds(a, b map[string]interface{}) {
 }
 
 // stringKeyedMaps turns the map[interface{}]interface{} values of a YAML document into
-// map[string]interface{}; non-string keys are rendered the way the weakly typed decoder renders them
+// map[string]interface{} (non-string keys are rendered the way the weakly typed decoder renders them)
+// and the arrays of tables of a TOML document into plain lists
 func stringKeyedMaps(v interface{}) interface{} {
 	switch x := v.(type) {
 	case map[interface{}]interface{}:
@@ -244,10 +245,22 @@ func stringKeyedMaps(v interface{}) interface{} {
 			m[mapKeyString(k)] = stringKeyedMaps(e)
 		}
 		return m
+	case map[string]interface{}:
+		for k, e := range x {
+			x[k] = stringKeyedMaps(e)
+		}
 	case []interface{}:
 		for i, e := range x {
 			x[i] = stringKeyedMaps(e)
 		}
+	case []map[string]interface{}:
+		// a TOML array of tables ([[pipelines.p]]): the other formats give []interface{} for the same
+		// list, and mergo refuses to append slices of different types
+		l := make([]interface{}, len(x))
+		for i, e := range x {
+			l[i] = stringKeyedMaps(e)
+		}
+		return l
 	}
 
 	return v
